@@ -72,3 +72,6 @@ pub assume_specification<T, P: FnOnce(&T) -> bool>[ Option::<T>::filter ](o: Opt
         o is None ==> r is None,
         r is Some ==> o is Some && r->Some_0 == o->Some_0 && predicate.ensures((&o->Some_0,), true),
 ;
+
+pub assume_specification<T, E>[ Result::<T, E>::unwrap_or ](r: Result<T, E>, default: T) -> (v: T)
+    ensures v == (match r { Ok(x) => x, Err(_) => default });
